@@ -282,6 +282,12 @@ func (w *world) replStep(rng *rand.Rand, ts int64, mut string) *Step {
 			bl = pid
 		}
 	}
+	if cid, _ := w.st.CommittedAlh(); bl == 0 && pid > 0 && pid-cid >= uint64(w.cfg.MaxActive) {
+		// cLogBuf is full: this attempt will fail AFTER its tx-log append; with BlTxID = 0 its BlRoot would be
+		// whatever the pooled tx holder contains (an input the harness can observe on successful precommits
+		// only), and a later reopen may reload the record
+		bl = pid
+	}
 	h.BlTxID = bl
 	root := merkleRoot(alhs[:bl])
 	h.BlRoot = root[:]
